@@ -139,7 +139,7 @@ ALL_TYPES = SCO_TYPES + ["x-stixmon-sensor", "x-stixmon-anon"]
 def wl_ids(ctx, rng, i):
     t = ALL_TYPES[i % len(ALL_TYPES)]
     o, g = gen_sco(rng, t, i // len(ALL_TYPES))
-    if t in m21.types and validator.validate(dict(o, id=g.new_id(t)), "2.1"):
+    if t in m21.types and [x for x in validator.validate(dict(o, id=g.new_id(t)), "2.1") if x[0] != "integer-type-range"]:
         ctx.skip("generator error")
         return
     exp, canon = expected_id(o)
